@@ -70,6 +70,12 @@ type Engine struct {
 	fieldNonNil  map[string]bool // "condition.cfg", "nodeConfig.log"
 	globalNonNil map[string]bool
 	slot0Axiom   bool
+	forall       map[*ssa.Function]forallSpec // variadic universal predicates (shape-checked by R-REFL)
+}
+
+type forallSpec struct {
+	kind string // "valid"
+	desc string
 }
 
 func newEngine(p *Program, eff *Effects) *Engine {
@@ -255,6 +261,14 @@ func (fa *FnAnalysis) term(st *State, v ssa.Value) *Term {
 	case *ssa.Call:
 		if b, ok := x.Call.Value.(*ssa.Builtin); ok && b.Name() == "len" && len(x.Call.Args) == 1 {
 			return e.tt.mk(Term{K: "LEN", A: fa.term(st, x.Call.Args[0])})
+		}
+		if cal := x.Call.StaticCallee(); cal != nil && len(x.Call.Args) == 1 {
+			switch cal.String() {
+			case "(reflect.Value).Kind":
+				return e.tt.mk(Term{K: "KIND", A: fa.term(st, x.Call.Args[0])})
+			case "(reflect.Value).IsNil":
+				return e.tt.mk(Term{K: "ISNIL", A: fa.term(st, x.Call.Args[0])})
+			}
 		}
 	case *ssa.Extract:
 		if ta, ok := x.Tuple.(*ssa.TypeAssert); ok && ta.CommaOk {
@@ -755,6 +769,19 @@ func (fa *FnAnalysis) transfer(st *State, in ssa.Instruction) {
 					}
 					return
 				}
+				if info != nil && info.multi && len(path) > 0 {
+					delete(st.bind, x)
+					if v := st.mem[a]; v != nil {
+						t := fa.term(st, v)
+						for _, f := range path {
+							t = e.tt.mk(Term{K: "F", A: t, N: f})
+						}
+						st.terms[x] = t
+					} else {
+						delete(st.terms, x)
+					}
+					return
+				}
 				// opaque local object: treat like a heap cell
 			}
 			// heap load: forwarded from the last store to the same cell, else
@@ -804,6 +831,9 @@ func (fa *FnAnalysis) transferCall(st *State, in ssa.Instruction, c *ssa.CallCom
 	callee := e.p.callee(c)
 	if callee == nil {
 		// dynamic call of a user closure: same assumption
+		if v != nil {
+			st.add(aDID, e.tt.mk(Term{K: "V", V: v}), true)
+		}
 		return
 	}
 	if e.p.inPkg(callee) {
@@ -859,6 +889,30 @@ func isVarargsFill(st *ssa.Store) bool {
 	return true
 }
 
+// variadicElems returns the values stored into the argument array of a
+// variadic call (`[a, b]`), in index order.
+func variadicElems(v ssa.Value) []ssa.Value {
+	sl, ok := v.(*ssa.Slice)
+	if !ok {
+		return nil
+	}
+	al, ok := sl.X.(*ssa.Alloc)
+	if !ok {
+		return nil
+	}
+	var out []ssa.Value
+	for _, r := range *al.Referrers() {
+		if ia, ok := r.(*ssa.IndexAddr); ok {
+			for _, u := range *ia.Referrers() {
+				if st, ok := u.(*ssa.Store); ok && st.Addr == ia {
+					out = append(out, st.Val)
+				}
+			}
+		}
+	}
+	return out
+}
+
 // killHeap drops forwarded cells that a write to one of the given abstract
 // locations may alias.
 func (fa *FnAnalysis) killHeap(st *State, locs []string) {
@@ -884,7 +938,23 @@ func (fa *FnAnalysis) killHeap(st *State, locs []string) {
 func (fa *FnAnalysis) callResultTerm(st *State, c *ssa.Call, k int) *Term {
 	vt := fa.e.tt.mk(Term{K: "V", V: c})
 	if c.Call.Signature().Results().Len() == 1 {
+		if st != nil {
+			if t, ok := st.terms[c]; ok && t != nil {
+				return t
+			}
+		}
 		return vt
+	}
+	if st != nil {
+		if refs := c.Referrers(); refs != nil {
+			for _, r := range *refs {
+				if ex, ok := r.(*ssa.Extract); ok && ex.Index == k {
+					if t, ok := st.terms[ex]; ok && t != nil {
+						return t
+					}
+				}
+			}
+		}
 	}
 	return fa.e.tt.mk(Term{K: "X", A: vt, N: k})
 }
@@ -911,6 +981,28 @@ func (fa *FnAnalysis) knownTerm(st *State, kind string, t *Term) (bool, bool) {
 				return true, true
 			}
 		}
+	}
+	if kind == aVALID {
+		if v, ok := st.get(aVALID, t); ok {
+			return v, true
+		}
+		kt := fa.e.tt.mk(Term{K: "KIND", A: t})
+		for _, f := range st.facts {
+			if f.Kind == aTR && f.Val && f.T.K == "B" && f.T.S == "==" {
+				var c *Term
+				if f.T.A == kt {
+					c = f.T.B
+				} else if f.T.B == kt {
+					c = f.T.A
+				}
+				if c != nil && c.K == "C" && c.Const != nil {
+					if n, ok := constInt64(c.Const); ok {
+						return n != 0, true
+					}
+				}
+			}
+		}
+		return false, false
 	}
 	if kind == aTR && t.K == "C" {
 		if t.S == "true" {
@@ -1065,6 +1157,20 @@ func (fa *FnAnalysis) buildSummary() *Summary {
 						if wt := fa.term(s, w); wt.paramRooted() {
 							d.T = wt
 						}
+					}
+				}
+				if d.T == nil {
+					// expressed through another result, e.g. the third result of derefPtr is Kind() of the second
+					var others []*Term
+					for j := 0; j < nres && j < len(rs.ret.Results); j++ {
+						if j == k {
+							others = append(others, nil)
+						} else {
+							others = append(others, fa.term(s, rs.ret.Results[j]))
+						}
+					}
+					if at := fa.e.tt.abstractResults(t, others); at != nil && at.mentionsResult() && at.summaryRooted(fa.e.eff.pure(fa.fn)) {
+						d.T = at
 					}
 				}
 				if d.T != nil && d.T.K == "C" && d.T.Const != nil && d.T.Const.Kind() == constant.Int {
@@ -1278,6 +1384,23 @@ func (fa *FnAnalysis) refineCall(st *State, c *ssa.Call) {
 					same = false
 				}
 			}
+			if same && nres > 1 {
+				if refs := c.Referrers(); refs != nil {
+					for _, r := range *refs {
+						if ex, ok := r.(*ssa.Extract); ok && ex.Index == k {
+							if _, has := st.terms[ex]; !has {
+								al := feas[0].res[k].T
+								for _, kind := range []string{aNN, aTR, aVALID, aCANIF} {
+									if v, ok := st.get(kind, rt); ok {
+										fa.addTermFact(st, kind, al, v)
+									}
+								}
+								st.terms[ex] = al
+							}
+						}
+					}
+				}
+			}
 			if same && nres == 1 {
 				if _, has := st.terms[c]; !has {
 					// move existing facts about the opaque result onto the alias
@@ -1324,6 +1447,35 @@ func (fa *FnAnalysis) externalPost(st *State, c *ssa.Call, name string) {
 		}
 	case "errors.New", "log.New", "(reflect.Type).Elem", "(reflect.Value).Type", "(reflect.Type).Key":
 		st.add(aNN, rt, true)
+	case "(reflect.Value).Elem":
+		// valid exactly when the pointer/interface is not nil
+		if len(c.Call.Args) == 1 {
+			at := fa.term(st, c.Call.Args[0])
+			if v, ok := fa.knownTerm(st, aTR, e.tt.mk(Term{K: "ISNIL", A: at})); ok {
+				st.add(aVALID, rt, !v)
+			}
+			if v, ok := fa.knownTerm(st, aCANIF, at); ok && v {
+				st.add(aCANIF, rt, true)
+			}
+		}
+	case "(reflect.Value).Index", "(reflect.Value).Convert":
+		st.add(aVALID, rt, true)
+		if len(c.Call.Args) >= 1 {
+			if v, ok := fa.knownTerm(st, aCANIF, fa.term(st, c.Call.Args[0])); ok && v {
+				st.add(aCANIF, rt, true)
+			}
+		}
+	case "(reflect.Value).Field":
+		st.add(aVALID, rt, true)
+	case "(reflect.Value).MapIndex":
+		if len(c.Call.Args) >= 1 {
+			if v, ok := fa.knownTerm(st, aCANIF, fa.term(st, c.Call.Args[0])); ok && v {
+				st.add(aCANIF, rt, true)
+			}
+		}
+	}
+	if name == "reflect.ValueOf" {
+		st.add(aCANIF, rt, true)
 	}
 }
 
@@ -1399,6 +1551,13 @@ func (fa *FnAnalysis) assumeVal(st *State, v ssa.Value, pol bool) {
 		if cal := e.p.callee(&x.Call); cal != nil {
 			if e.p.inPkg(cal) {
 				fa.refineCall(st, x)
+				if spec, ok := e.forall[cal]; ok && pol && len(x.Call.Args) == 1 {
+					for _, el := range variadicElems(x.Call.Args[0]) {
+						if spec.kind == "valid" {
+							fa.addTermFact(st, aVALID, fa.term(st, el), true)
+						}
+					}
+				}
 			} else {
 				fa.externalAssume(st, x, cal.String(), pol)
 			}
